@@ -166,7 +166,9 @@ def b_set(I, v=()):
     for x in xs:
         if x not in out:
             out.append(x)
-    return PList(out)
+    r = PList(out)
+    r.is_set = True          # a concrete set: -, &, | between two of them are the set operations (iteration order: first occurrence)
+    return r
 
 
 def b_sorted(I, v, key=None, reverse=False):
